@@ -39,7 +39,8 @@ Definition rerr_eqb (a b : rerr) : bool :=
 (* level 0: core state; level 1: every field and the returned operation lists *)
 Definition outcome_eqb (level : nat) (a b : outcome) : bool :=
   match a, b with
-  | OErr x, OErr y => rerr_eqb x y
+  | OErr _, OErr _ => true   (* the properties say "is an error"; WHICH error is only known from the wording of a
+                                 message (fmt.Errorf, no sentinel values), and a reworded message must not raise an alarm *)
   | OOk x, OOk y =>
     match level with
     | O => state_core_eqb (r_state x) (r_state y)
